@@ -201,6 +201,14 @@ Theorem C17_vonmises_tm_minimal : forall (l : list Q) (d : Q),
 Proof. exact argmin_abs_spec. Qed.
 Print Assumptions C17_vonmises_tm_minimal.
 
+(* ---- Heat1D step count: the value read off the implementation's time grid is a CHECKED certificate -- accepted only inside
+        r (1 - 2^-40) - 1 < steps <= r (1 + 2^-40), r the exact ratio max_time / ((5/11) dx^2) whose floating-point floor the code takes *)
+Theorem C17_heat_steps_bracket : forall (N : nat) (ep T : Qc) (steps : nat), heat_steps_ok N ep T steps = true ->
+  (zq (Z.of_nat steps) <= heat_ratio N ep T * (1 + fuzz))%Qc /\
+  (heat_ratio N ep T * (1 - fuzz) < zq (Z.of_nat steps) + 1)%Qc.
+Proof. exact heat_steps_bracket. Qed.
+Print Assumptions C17_heat_steps_bracket.
+
 (* non-vacuity: a PSF is produced, a legacy half row of the right length exists, stencils act on real inputs *)
 Example C17_deep_nonvacuous :
   (exists P, moffat_psf_1d 4 (qc (1 # 2)) = Some P) /\ (exists P, defocus_psf_1d true 5 (qc (1 # 1)) = Some P) /\
